@@ -110,6 +110,9 @@ struct Sink {
     /// bytes accepted since the last reset
     model: Vec<u8>,
     reversed: bool,
+    /// the statement fixes what the reversed mode outputs, not whether the mode survives reset / a *_reset finisher of a reversed
+    /// instance nor what a second reverse() does: from then on either byte order is accepted for this instance and its clones
+    either: bool,
     key: Vec<u8>,
     fragments: u32,
 }
@@ -125,7 +128,7 @@ impl Sink {
             "hmac-hash160" => Engine::MacH(Hmac::<Hash160>::new_from_slice(key).ok()?),
             _ => return None,
         };
-        Some(Sink { kind: kind.to_string(), eng, model: vec![], reversed: false, key: key.to_vec(), fragments: 0 })
+        Some(Sink { kind: kind.to_string(), eng, model: vec![], reversed: false, either: false, key: key.to_vec(), fragments: 0 })
     }
     fn is_mac(&self) -> bool {
         self.kind.starts_with("hmac-")
@@ -149,7 +152,7 @@ impl Sink {
             Engine::MacD(e) => Engine::MacD(e.clone()),
             Engine::MacH(e) => Engine::MacH(e.clone()),
         };
-        Sink { kind: self.kind.clone(), eng, model: self.model.clone(), reversed: self.reversed, key: self.key.clone(), fragments: self.fragments }
+        Sink { kind: self.kind.clone(), eng, model: self.model.clone(), reversed: self.reversed, either: self.either, key: self.key.clone(), fragments: self.fragments }
     }
 }
 
@@ -237,7 +240,7 @@ impl Scenario for DigestStream {
             abstract_state: "(sink kind, bytes-in-flight bucket modulo the block size, reversed?, forked?, call kind)",
             real: &["bsv::Sha256r / Sha256d / Hash160 through digest::{Update, Reset, FixedOutput, FixedOutputDirty}, Clone and ReversibleDigest", "hmac::Hmac over the three adapters (the composition Hash::*_hmac and RFC 6979 use)", "bsv::Hash::{sha_1, sha_256, sha_256d, sha_512, ripemd_160, hash_160} and their *_hmac variants", "bsv::KDF::pbkdf2 (SHA-1/256/512)"],
             stub: &["model = bytes accepted since the last reset, hashed one-shot by sha2 / sha-1 / ripemd160 directly", "textbook RFC 2104 HMAC and RFC 8018 PBKDF2 over those primitives (reference-model oracles without a schedule dimension of their own)"],
-            assumptions: &["the primitive crates sha2, sha-1 and ripemd160 are the independent reference for the published algorithms", "an instance obtained through reverse() stays reversed for its lifetime, across reset and *_reset finishers (the mode is a property of the instance; this is what the shipped adapters do)"],
+            assumptions: &["the primitive crates sha2, sha-1 and ripemd160 are the independent reference for the published algorithms", "whether the reversed mode survives reset / a *_reset finisher, and whether a second reverse() sets or toggles, is not fixed by the statement: after either, both byte orders are accepted for that instance (the first finish of a reversed instance, and every finish of a never-reversed one, is judged exactly)"],
             required_probes: &["frag:dribble1", "frag:block-aligned", "frag:boundary", "frag:random", "frag:zero-length", "frag:block-edge", "via_digest_trait", "fork_midstream", "reset_midstream", "finalize_reset_then_second_message", "reversed_finalize", "oneshot", "hmac_key_longer_than_block", "pbkdf2_multi_block"],
             quick_runs: 100000,
             thorough_runs: 5000000,
@@ -338,7 +341,11 @@ impl Scenario for DigestStream {
                 let want = $sink.expected();
                 let got: Vec<u8> = $got;
                 ctx.observe(&got);
-                if got != want {
+                let other: Vec<u8> = want.iter().rev().cloned().collect();
+                if $sink.either {
+                    ctx.probe(if got == want { "mode_kept_after_reset_or_second_reverse" } else { "mode_dropped_after_reset_or_second_reverse" });
+                }
+                if got != want && !($sink.either && got == other) {
                     let sig = format!("digest-mismatch:{} via {}{}", $sink.kind, $how, if $sink.reversed { " reversed" } else { "" });
                     if ctx.violate("mismatch", sig, format!("{} over {} bytes fed in {} fragments: got {} want {}", $sink.kind, $sink.model.len(), $sink.fragments, hx(&got), hx(&want))) {
                         return;
@@ -543,12 +550,17 @@ impl Scenario for DigestStream {
                         "flush" => {
                             let s = sinks[i].as_mut().unwrap();
                             // no io::Write on the adapters (see above): a flush is a zero-length update
-                            let _ = guard(|| match &mut s.eng {
+                            let r = guard(|| match &mut s.eng {
                                 Engine::R(e) => Update::update(e, &[] as &[u8]),
                                 Engine::D(e) => Update::update(e, &[] as &[u8]),
                                 Engine::H(e) => Update::update(e, &[] as &[u8]),
                                 _ => {}
                             });
+                            if let Err(p) = r {
+                                if ctx.violate("panic", format!("panic@{}#zero-length update {}", site_file(&p.site), s.kind), p.msg) {
+                                    return;
+                                }
+                            }
                         }
                         "reset" => {
                             let s = sinks[i].as_mut().unwrap();
@@ -559,7 +571,7 @@ impl Scenario for DigestStream {
                                 ctx.probe("reset_midstream");
                                 ctx.fault("reset");
                             }
-                            let _ = guard(|| match &mut s.eng {
+                            let r = guard(|| match &mut s.eng {
                                 Engine::R(e) => Reset::reset(e),
                                 Engine::D(e) => Reset::reset(e),
                                 Engine::H(e) => Reset::reset(e),
@@ -567,6 +579,14 @@ impl Scenario for DigestStream {
                                 Engine::MacD(e) => Mac::reset(e),
                                 Engine::MacH(e) => Mac::reset(e),
                             });
+                            if let Err(p) = r {
+                                if ctx.violate("panic", format!("panic@{}#reset {}", site_file(&p.site), s.kind), p.msg) {
+                                    return;
+                                }
+                            }
+                            if s.reversed {
+                                s.either = true;
+                            }
                             s.model.clear();
                             s.fragments = 0;
                         }
@@ -577,14 +597,25 @@ impl Scenario for DigestStream {
                                 continue;
                             }
                             if s.reversed {
-                                // reverse() of a reversed instance (e.g. of its clone) stays reversed
+                                // reverse() of a reversed instance: "set" and "toggle" both satisfy the statement
                                 ctx.probe("reverse_of_reversed");
+                                s.either = true;
                             }
-                            match &s.eng {
-                                Engine::R(e) => s.eng = Engine::R(e.reverse()),
-                                Engine::D(e) => s.eng = Engine::D(e.reverse()),
-                                Engine::H(e) => s.eng = Engine::H(e.reverse()),
-                                _ => {}
+                            let kind = s.kind.clone();
+                            let r = guard(|| match &s.eng {
+                                Engine::R(e) => Some(Engine::R(e.reverse())),
+                                Engine::D(e) => Some(Engine::D(e.reverse())),
+                                Engine::H(e) => Some(Engine::H(e.reverse())),
+                                _ => None,
+                            });
+                            match r {
+                                Ok(Some(e)) => s.eng = e,
+                                Ok(None) => {}
+                                Err(p) => {
+                                    if ctx.violate("panic", format!("panic@{}#reverse {}", site_file(&p.site), kind), p.msg) {
+                                        return;
+                                    }
+                                }
                             }
                             s.reversed = true;
                         }
@@ -648,6 +679,9 @@ impl Scenario for DigestStream {
                             match got {
                                 Ok(g) => {
                                     check!(s, g, &format!("finalize_{}", how));
+                                    if s.reversed {
+                                        s.either = true;
+                                    }
                                     s.model.clear();
                                     s.fragments = 0;
                                     ctx.probe("finalize_reset_then_second_message");
@@ -702,8 +736,15 @@ impl Scenario for DigestStream {
                 Engine::MacD(e) => e.finalize().into_bytes().to_vec(),
                 Engine::MacH(e) => e.finalize().into_bytes().to_vec(),
             });
-            if let Ok(g) = got {
-                check!(holder, g, "finalize(drain)");
+            match got {
+                Ok(g) => {
+                    check!(holder, g, "finalize(drain)");
+                }
+                Err(p) => {
+                    if ctx.violate("panic", format!("panic@{}#finalize {}", site_file(&p.site), holder.kind), p.msg) {
+                        return;
+                    }
+                }
             }
         }
     }
